@@ -34,14 +34,18 @@ MUTABLE_CTORS = {'list', 'dict', 'set', 'deque', 'ChainMap', 'bytearray',
 
 class SymVal:
     """A canonicalised expression with the versions of what it read."""
-    __slots__ = ('node', 'text', 'stamp', 'tag', 'info')
+    __slots__ = ('node', 'text', 'stamp', 'tag', 'info', 'binds')
 
-    def __init__(self, node, stamp=frozenset(), tag=None, info=None):
+    def __init__(self, node, stamp=frozenset(), tag=None, info=None,
+                 binds=frozenset()):
         self.node = node
         self.text = norm(node)
         self.stamp = stamp
         self.tag = tag
         self.info = info
+        # versions, at BINDING time, of the chains reached through aliases
+        # of live objects (is the alias still the object the table holds?)
+        self.binds = binds
 
     def same(self, other):
         return (isinstance(other, SymVal) and self.text == other.text
@@ -154,6 +158,7 @@ class _Subst(ast.NodeTransformer):
         self.w = walker
         self.st = state
         self.stamps = set()
+        self.binds = set()
         self.container_ids = container_ids
 
     def visit_Name(self, node):
@@ -176,6 +181,8 @@ class _Subst(ast.NodeTransformer):
                             d = dotted(x)
                             if d:
                                 chains.add(d)
+                    self.binds |= {p for p in sv.stamp if p[0] in chains}
+                    self.binds |= set(sv.binds)
                     self.stamps -= {p for p in self.stamps if p[0] in chains}
                     self.stamps |= {(c, self.st.versions.get(c, 0))
                                     for c in chains}
@@ -447,7 +454,8 @@ class Walker:
         sub = _Subst(self, st, _container_uses(cp))
         new = sub.visit(cp)
         ast.fix_missing_locations(new)
-        return SymVal(new, frozenset(sub.stamps))
+        return SymVal(new, frozenset(sub.stamps),
+                      binds=frozenset(sub.binds))
 
     def fresh(self, st, hint, tag='fresh', info=None):
         st.fresh += 1
